@@ -6,6 +6,7 @@ import (
 	"fmt"
 	"math/rand"
 	"strings"
+	"sync"
 
 	"verif/harness/codec"
 	"verif/harness/core"
@@ -13,12 +14,41 @@ import (
 
 func init() { checks["C07"] = runC07 }
 
+// corruption describes one hostile input as an edit of a base encoding (kept compact: the
+// inputs of a type are materialised chunk by chunk, not all at once).
 type corruption struct {
-	kind string // count | tag | flip | splice | tail | random | fill
-	role string // wire role of the first corrupted byte
-	b    []byte
-	note string
+	kind  string // count | tag | flip | splice | tail | random | fill | under-announce+cut
+	role  string // wire role of the first corrupted byte
+	note  string
+	base  []byte // shared, never modified
+	cut   int    // keep base[:cut] (-1: all of it)
+	off   int    // overwrite at off with patch (len(patch) may be 0)
+	patch []byte
+	tail  []byte // appended after the (cut) base
 }
+
+func (c corruption) bytes() []byte {
+	b := c.base
+	if c.cut >= 0 && c.cut < len(b) {
+		b = b[:c.cut]
+	}
+	nb := make([]byte, 0, len(b)+len(c.tail))
+	nb = append(nb, b...)
+	if len(c.patch) > 0 && c.off+len(c.patch) <= len(nb) {
+		copy(nb[c.off:], c.patch)
+	}
+	return append(nb, c.tail...)
+}
+
+func (c corruption) size() int {
+	n := len(c.base)
+	if c.cut >= 0 && c.cut < n {
+		n = c.cut
+	}
+	return n + len(c.tail)
+}
+
+func le32(v uint32) []byte { return []byte{byte(v), byte(v >> 8), byte(v >> 16), byte(v >> 24)} }
 
 // prefixRuns returns the start offsets of every 4-byte length/count prefix and of every
 // 1-byte tag in an encoding.
@@ -40,9 +70,6 @@ func prefixRuns(roles []codec.Role) (prefixes []int, tags []int) {
 func corruptions(ev encVal, roles []codec.Role, other []byte, rng *rand.Rand, thorough bool) []corruption {
 	var out []corruption
 	b := ev.B
-	add := func(kind, role string, nb []byte, note string) {
-		out = append(out, corruption{kind, role, nb, note})
-	}
 	pre, tags := prefixRuns(roles)
 	for _, p := range pre {
 		rem := uint32(len(b) - p - 4)
@@ -55,9 +82,7 @@ func corruptions(ev encVal, roles []codec.Role, other []byte, rng *rand.Rand, th
 			if v == orig {
 				continue
 			}
-			nb := append([]byte{}, b...)
-			binary.LittleEndian.PutUint32(nb[p:], v)
-			add("count", roles[p].Kind, nb, fmt.Sprintf("offset %d: %d -> %d", p, orig, v))
+			out = append(out, corruption{kind: "count", role: roles[p].Kind, note: fmt.Sprintf("offset %d: %d -> %d", p, orig, v), base: b, cut: -1, off: p, patch: le32(v)})
 		}
 	}
 	// compound: a message/union length that announces LESS than what follows (records are skipped
@@ -87,9 +112,8 @@ func corruptions(ev encVal, roles []codec.Role, other []byte, rng *rand.Rand, th
 				cuts = cuts[:max]
 			}
 			for _, k := range cuts {
-				nb := append([]byte{}, b[:k]...)
-				binary.LittleEndian.PutUint32(nb[p:], v)
-				add("under-announce+cut", roles[p].Kind, nb, fmt.Sprintf("offset %d: %d -> %d, cut at %d of %d", p, orig, v, k, len(b)))
+				out = append(out, corruption{kind: "under-announce+cut", role: roles[p].Kind, note: fmt.Sprintf("offset %d: %d -> %d, cut at %d of %d", p, orig, v, k, len(b)),
+					base: b, cut: k, off: p, patch: le32(v)})
 			}
 		}
 	}
@@ -102,9 +126,7 @@ func corruptions(ev encVal, roles []codec.Role, other []byte, rng *rand.Rand, th
 			if v == b[t] {
 				continue
 			}
-			nb := append([]byte{}, b...)
-			nb[t] = v
-			add("tag", roles[t].Kind, nb, fmt.Sprintf("offset %d: %d -> %d", t, b[t], v))
+			out = append(out, corruption{kind: "tag", role: roles[t].Kind, note: fmt.Sprintf("offset %d: %d -> %d", t, b[t], v), base: b, cut: -1, off: t, patch: []byte{v}})
 		}
 	}
 	nflip := 24
@@ -116,30 +138,27 @@ func corruptions(ev encVal, roles []codec.Role, other []byte, rng *rand.Rand, th
 		if len(b) > nflip/2 {
 			k = rng.Intn(len(b))
 		}
-		nb := append([]byte{}, b...)
+		nv := b[k] ^ 0x01
 		if i%2 == 0 {
-			nb[k] ^= 0xff
-		} else {
-			nb[k] ^= 0x01
+			nv = b[k] ^ 0xff
 		}
 		role := "?"
 		if k < len(roles) {
 			role = roles[k].Kind
 		}
-		add("flip", role, nb, fmt.Sprintf("offset %d", k))
+		out = append(out, corruption{kind: "flip", role: role, note: fmt.Sprintf("offset %d", k), base: b, cut: -1, off: k, patch: []byte{nv}})
 	}
 	if len(other) > 0 && len(b) > 1 {
 		for i := 0; i < 4; i++ {
 			k := 1 + rng.Intn(len(b)-1)
 			j := rng.Intn(len(other))
-			nb := append(append([]byte{}, b[:k]...), other[j:]...)
-			add("splice", roles[k].Kind, nb, fmt.Sprintf("own[:%d] + other[%d:]", k, j))
+			out = append(out, corruption{kind: "splice", role: roles[k].Kind, note: fmt.Sprintf("own[:%d] + other[%d:]", k, j), base: b, cut: k, tail: other[j:]})
 		}
 	}
 	for _, n := range []int{1, 3, 8} {
 		tail := make([]byte, n)
 		rng.Read(tail)
-		add("tail", "after-end", append(append([]byte{}, b...), tail...), fmt.Sprintf("+%d random bytes", n))
+		out = append(out, corruption{kind: "tail", role: "after-end", note: fmt.Sprintf("+%d random bytes", n), base: b, cut: -1, tail: tail})
 	}
 	return out
 }
@@ -147,12 +166,12 @@ func corruptions(ev encVal, roles []codec.Role, other []byte, rng *rand.Rand, th
 func unstructured(rng *rand.Rand, thorough bool) []corruption {
 	var out []corruption
 	for n := 0; n <= 16; n++ {
-		out = append(out, corruption{"fill", "n/a", make([]byte, n), fmt.Sprintf("%d x 00", n)})
+		out = append(out, corruption{kind: "fill", role: "n/a", note: fmt.Sprintf("%d x 00", n), cut: -1, tail: make([]byte, n)})
 		ff := make([]byte, n)
 		for i := range ff {
 			ff[i] = 0xff
 		}
-		out = append(out, corruption{"fill", "n/a", ff, fmt.Sprintf("%d x ff", n)})
+		out = append(out, corruption{kind: "fill", role: "n/a", note: fmt.Sprintf("%d x ff", n), cut: -1, tail: ff})
 	}
 	nr := 24
 	if thorough {
@@ -165,7 +184,7 @@ func unstructured(rng *rand.Rand, thorough bool) []corruption {
 			// plausible small leading length so that parsing gets past the header
 			binary.LittleEndian.PutUint32(b, uint32(rng.Intn(len(b)+4)))
 		}
-		out = append(out, corruption{"random", "n/a", b, fmt.Sprintf("%d random bytes", len(b))})
+		out = append(out, corruption{kind: "random", role: "n/a", note: fmt.Sprintf("%d random bytes", len(b)), cut: -1, tail: b})
 	}
 	return out
 }
@@ -226,22 +245,50 @@ func runC07(args []string) {
 			}
 			cs = one
 		}
+		// the inputs are materialised and executed chunk by chunk (bounded by input bytes), so that
+		// neither the controller nor the driver ever holds all hostile inputs of a type at once
+		for lo := 0; lo < len(cs); {
+			if r.Broken() {
+				return
+			}
+			hi, bytes := lo, 0
+			for hi < len(cs) && (hi == lo || (bytes+cs[hi].size() <= 1<<20 && hi-lo < 512)) {
+				bytes += cs[hi].size()
+				hi++
+			}
+			c07Chunk(r, ch, t, cs[lo:hi], &total, &sampleMu)
+			lo = hi
+		}
+	})
+	r.Set("inputs_executed", total)
+	finish(r)
+}
+
+func c07Chunk(r *core.Run, ch *core.Child, t *CType, cs []corruption, totalp *int, sampleMu *sync.Mutex) {
+	total := 0
+	defer func() {
+		sampleMu.Lock()
+		*totalp += total
+		sampleMu.Unlock()
+	}()
+	{
 		var cases []decCase
-		for _, c := range cs {
-			h := hex.EncodeToString(c.b)
+		inputs := make([][]byte, len(cs))
+		for i, c := range cs {
+			inputs[i] = c.bytes()
+			h := hex.EncodeToString(inputs[i])
 			cases = append(cases, decCase{Type: t.Def.Name, Hex: h, How: "unmarshal", NoVal: true}, decCase{Type: t.Def.Name, Hex: h, How: "decode", NoVal: true})
 		}
 		outs := runCases(ch, t.Pkg.Name, cases)
 		for i, o := range outs {
 			c := cs[i/2]
+			cb := inputs[i/2]
 			dec := cases[i].How
 			r.Eval(t.Label + "|" + dec + "|" + c.kind + "|" + c.role)
-			sampleMu.Lock()
 			total++
-			sampleMu.Unlock()
 			loc := t.Locus()
 			loc["decoder"], loc["corruption"], loc["role"] = dec, c.kind, c.role
-			detail := map[string]any{"type": t.Def.Name, "origin": t.Label, "input": hex.EncodeToString(c.b), "corruption": c.kind + ": " + c.note, "decoder": dec, "schema": t.Pkg.Text}
+			detail := map[string]any{"type": t.Def.Name, "origin": t.Label, "input": hex.EncodeToString(cb), "corruption": c.kind + ": " + c.note, "decoder": dec, "schema": t.Pkg.Text}
 			if o.Outcome == "" {
 				r.Inconclusive("case not executed")
 				continue
@@ -268,18 +315,16 @@ func runC07(args []string) {
 				r.Violate(clause, loc, detail)
 				continue
 			}
-			if o.Alloc > allocBound(len(c.b)) {
+			if o.Alloc > allocBound(len(cb)) {
 				detail["alloc"] = o.Alloc
-				detail["bound"] = allocBound(len(c.b))
+				detail["bound"] = allocBound(len(cb))
 				detail["returned_error"] = o.Err
 				r.Violate("hostile input: allocation out of proportion to the input", loc, detail)
 				continue
 			}
 			if r.NeedSample() && i%97 == 13 {
-				r.Sample(map[string]any{"type": t.Label, "decoder": dec, "corruption": c.kind + ": " + c.note, "input": hex.EncodeToString(c.b), "returned_error": o.HasErr, "alloc_bytes": o.Alloc})
+				r.Sample(map[string]any{"type": t.Label, "decoder": dec, "corruption": c.kind + ": " + c.note, "input": hex.EncodeToString(cb), "returned_error": o.HasErr, "alloc_bytes": o.Alloc})
 			}
 		}
-	})
-	r.Set("inputs_executed", total)
-	finish(r)
+	}
 }
